@@ -226,8 +226,10 @@ class RecipeManager:
       self.add_quantization_config(
           config['regex'],
           config['operation'],
+          # Keep the config of every rule (also of no_quantize rules) so
+          # that an exported recipe reloads to itself.
           _OpQuantizationConfig.from_dict(config['op_config'])
-          if config['algorithm_key'] != AlgorithmName.NO_QUANTIZE
+          if config.get('op_config')
           else None,
           config['algorithm_key'],
       )
